@@ -21,6 +21,21 @@ var one = big.NewInt(1)
 
 func pow2(k uint) *big.Int { return new(big.Int).Lsh(one, k) }
 
+// canonical mirrors coq/model/C09_Compact.v [canonical].
+func canonical(c uint32) bool {
+	if c == 0 {
+		return true
+	}
+	m, e := c&0x7fffff, c>>24
+	if m < 0x8000 {
+		return false
+	}
+	if e <= 2 {
+		return m%(1<<(8*(3-e))) == 0
+	}
+	return true
+}
+
 func main() {
 	run := lib.ParseArgs()
 	elaenv.InitLog(run.Out)
@@ -57,6 +72,10 @@ func main() {
 		sh.Add(fmt.Sprintf("CToBig %d %d %s", i, c, lib.CoqZ(out)))
 		st.LogCase(run.Out, i, map[string]interface{}{"op": "CompactToBig", "c": c, "out": out.String()})
 		st.Count(fmt.Sprintf("tb:%d", c), out.Sign() != 0, "CompactToBig")
+		// oracle: identity on canonical encodings (the structural predicate of the model)
+		if canonical(c) && blockchain.BigToCompact(out) != c {
+			st.Fail("compact:roundtrip", "canonical compact value does not round-trip", map[string]interface{}{"c": c, "back": blockchain.BigToCompact(out)})
+		}
 		// oracle: re-encoding never yields a larger target (positive values)
 		if out.Sign() > 0 {
 			back := blockchain.CompactToBig(blockchain.BigToCompact(out))
